@@ -380,10 +380,8 @@ func evalTsconfig(r *core.Run, cases []*tcCase, replay bool) {
 		results[i] = res
 		it := nodeItem{ID: fmt.Sprint(i)}
 		for v := range tcVariants {
-			if cases[i].variantOn(r, v) && !res.chain[v].Fatal {
+			if cases[i].variantOn(r, v) && !res.chain[v].Fatal { // (the outputs of the evaluated variants, in variant order)
 				it.Srcs = append(it.Srcs, tcRunHead+res.chain[v].Out+tcRunTail)
-			} else {
-				it.Srcs = append(it.Srcs, "")
 			}
 		}
 		items[i] = it
@@ -426,6 +424,7 @@ func evalTsconfig(r *core.Run, cases []*tcCase, replay bool) {
 		}
 		treeText := tcTreeText(tree)
 		nodeOuts := outs[fmt.Sprint(i)]
+		nodeIx := 0 // index into nodeOuts: one entry per evaluated variant whose chain build succeeded
 		for v, vr := range tcVariants {
 			if !c.variantOn(r, v) {
 				continue
@@ -468,11 +467,12 @@ func evalTsconfig(r *core.Run, cases []*tcCase, replay bool) {
 				r.Violation(key("use-strict", vr), fmt.Sprintf("effective alwaysStrict of the chain is %v (TsConfig.tla: alwaysStrict if set in the resolved options, else strict), but the %s output %s \"use strict\"\n%s--- output:\n%s",
 					c.Strict, vr, map[bool]string{true: "starts with", false: "does not start with"}[prologue], treeText, ch.Out), det(map[string]interface{}{"variant": vr.String(), "output": ch.Out}))
 			}
-			if nodeOuts == nil || v >= len(nodeOuts) {
+			if nodeOuts == nil || nodeIx >= len(nodeOuts) {
 				continue
 			}
 			runs++
-			got := nodeOuts[v]
+			got := nodeOuts[nodeIx]
+			nodeIx++
 			var ob tcObserved
 			if got.Error != "" || json.Unmarshal([]byte(got.Out), &ob) != nil {
 				r.Violation(key("runs", vr), fmt.Sprintf("the probe program does not run after esbuild (%s): %s %s\n%s--- output:\n%s", vr, got.Error, got.Out, treeText, ch.Out),
@@ -506,8 +506,8 @@ func evalTsconfig(r *core.Run, cases []*tcCase, replay bool) {
 			samples++
 			r.Sample(map[string]interface{}{"part": "tsconfig", "tree": tree, "links": c.Links, "resolved": c.Resolved, "strict": c.Strict, "define": c.Define,
 				"output": res.chain[(c.Code%2)*2].Out, "observed": func() string {
-					if nodeOuts != nil {
-						return nodeOuts[(c.Code%2)*2].Out
+					if len(nodeOuts) > 0 {
+						return nodeOuts[0].Out
 					}
 					return ""
 				}()})
